@@ -98,7 +98,7 @@ def hl(rng, which, expr):
 
 
 def interesting_value(rng):
-    up = rng.choice([0, 1, 2, 0x3ffff, 0x40000, 0x7fffe, 0x7ffff, rng.getrandbits(19), rng.getrandbits(19)])
+    up = rng.choice([0, 1, 2, 0x3ffff, 0x40000, 0x7fffe, 0x7ffff, rng.getrandbits(19), rng.getrandbits(19), 15, 16, 31, 32, 0x7fff0, 0x7ffef, rng.randrange(0, 40)])
     low = rng.choice(CRIT_LOW + [rng.getrandbits(13)])
     return ((up << 13) | low) & M32
 
